@@ -17,7 +17,9 @@ import gen
 import parsing
 
 RULE = ('exhaustive: all strings of length <= 4 (quick) / <= 5 (thorough) over the 8-letter token alphabet x 8 flag '
-        'combinations; seeded malformed stream: token soups over generated tables with invalid characters, blank input; '
+        'combinations; grammar-derived valid token sequences (depth <= 3, up to 24 tokens) with one local damage of each kind '
+        'the property lists (operator dropped, operand or WITH group after ")", operand before "(", "()", operator after "(" / '
+        'before ")", doubled / leading operator, parenthesis dropped / added, stray WITH); seeded malformed stream: token soups over generated tables with invalid characters, blank input; '
         'non-trivial = the string is malformed (not valid, not valid + one dangling operator); distinct by (text, flags, table)')
 ASSUMPTIONS = ['a single dangling AND / OR at the very end of the input is outside the claim (the suite pins both outcomes)',
                'Licensing.tokenize() called directly raises boolean.py ParseError by design and is not checked for the class']
@@ -85,6 +87,84 @@ def soup(rng, T):
     return ''.join(p + s for p, s in zip(parts, sep))
 
 
+def valid_tokens(rng, depth):
+    """A valid token tuple over the token alphabet, from the grammar."""
+    def emit(node, out):
+        tag = node[0]
+        if tag == 'sym':
+            out.append(rng.choice(['k', 'k', 'e', 'u']))
+        elif tag == 'with':
+            out.extend([rng.choice(['k', 'u']), 'with', rng.choice(['e', 'k', 'u'])])
+        elif tag == 'par':
+            out.append('(')
+            emit(node[1], out)
+            out.append(')')
+        else:
+            for j, c in enumerate(node[1]):
+                if j:
+                    out.append(tag)
+                if c[0] in ('and', 'or'):
+                    out.append('(')
+                    emit(c, out)
+                    out.append(')')
+                else:
+                    emit(c, out)
+    out = []
+    emit(gen.gen_surface(rng, depth), out)
+    return out
+
+
+def malform(rng, toks):
+    """One local damage to a valid token list: the shapes the property enumerates."""
+    t = list(toks)
+    kind = rng.choice(['drop_op', 'operand_after_rpar', 'with_after_rpar', 'operand_before_lpar', 'empty_parens',
+                       'op_after_lpar', 'op_before_rpar', 'double_op', 'leading_op', 'drop_paren', 'stray_with', 'extra_rpar'])
+    idx = lambda pred: [i for i, x in enumerate(t) if pred(x)]
+    if kind == 'drop_op':
+        c = idx(lambda x: x in ('and', 'or'))
+        if c:
+            del t[rng.choice(c)]
+    elif kind == 'operand_after_rpar':
+        c = idx(lambda x: x == ')')
+        if c:
+            t.insert(rng.choice(c) + 1, rng.choice(['k', 'u']))
+    elif kind == 'with_after_rpar':
+        c = idx(lambda x: x == ')')
+        if c:
+            i = rng.choice(c) + 1
+            t[i:i] = ['k', 'with', 'e']
+    elif kind == 'operand_before_lpar':
+        c = idx(lambda x: x == '(')
+        if c:
+            t.insert(rng.choice(c), rng.choice(['k', 'u', ')']))
+    elif kind == 'empty_parens':
+        i = rng.randrange(len(t) + 1)
+        t[i:i] = ['(', ')']
+    elif kind == 'op_after_lpar':
+        c = idx(lambda x: x == '(')
+        if c:
+            t.insert(rng.choice(c) + 1, rng.choice(['and', 'or']))
+    elif kind == 'op_before_rpar':
+        c = idx(lambda x: x == ')')
+        if c:
+            t.insert(rng.choice(c), rng.choice(['and', 'or']))
+    elif kind == 'double_op':
+        c = idx(lambda x: x in ('and', 'or'))
+        if c:
+            t.insert(rng.choice(c), rng.choice(['and', 'or']))
+    elif kind == 'leading_op':
+        t.insert(0, rng.choice(['and', 'or']))
+    elif kind == 'drop_paren':
+        c = idx(lambda x: x in '()')
+        if c:
+            del t[rng.choice(c)]
+    elif kind == 'stray_with':
+        t.insert(rng.randrange(len(t) + 1), 'with')
+    else:
+        t.insert(rng.randrange(len(t) + 1), ')')
+    return tuple(t), kind
+
+
 def run(rep, tier, seed):
     le = imp()
     rng = random.Random(seed)
@@ -126,6 +206,37 @@ def run(rep, tier, seed):
                     e2 = other_calls_error(L, s, le)
                     if e2:
                         rep.violations.append({'key': 'api', 'kind': 'api', 'text': s, 'table': gen.TOKEN_TABLE, 'what': e2})
+    # damaged valid expressions: one local malformation anywhere in a grammar-derived token sequence
+    nm = 40000 if tier == 'thorough' else 4000
+    dam = []
+    for _ in range(nm):
+        base = valid_tokens(rng, rng.randint(1, 3))
+        t, kind = malform(rng, base)
+        if len(t) <= 24:
+            dam.append((t, kind, rng.choice(flagsets)))
+    reqs = [(4, [encT, int(f[0]), int(f[1]), int(f[2]), enc_str(gen.render_tokens(t))]) for t, _, f in dam]
+    res = run_model(reqs)
+    for (t, kind, flags), r in zip(dam, res):
+        s = gen.render_tokens(t)
+        ref = parsing.token_kinds_to_ref(t, flags[2])
+        err, got = check_text(L, s, ref, le, flags)
+        cls = parsing.ref_classify(ref)[0]
+        rep.case(('damaged', t, flags), nontrivial=(cls == 'invalid'),
+                 sample={'text': s, 'damage': kind, 'flags': flags, 'outcome': got[:2]} if cls == 'invalid' and len(t) >= 8 else None)
+        rep.count('damaged_' + cls)
+        rep.compared += 1
+        if err:
+            small = gen.shrink_list(list(t), lambda c: bool(c) and check_text(
+                L, gen.render_tokens(c), parsing.token_kinds_to_ref(tuple(c), flags[2]), le, flags)[0] is not None)
+            rep.violations.append({'key': 'tokens', 'kind': 'tokens', 'tokens': list(small), 'flags': list(flags),
+                                   'text': gen.render_tokens(small), 'what': err + ' (damage: %s)' % kind})
+            continue
+        g = got
+        if g[0] == 2 and g[1][0] == 2:
+            g = [2, [2]]
+            r = [2, [2]] if (r[0] == 2 and r[1][0] == 2) else r
+        if g != r and len(rep.broken) < 5:
+            rep.broken.append('correspondence C03/damaged: %r flags=%r model %r implementation %r' % (s, flags, r, got))
     # validate() against the model
     vreqs = [(10, [encT, int(st), enc_str(gen.render_tokens(t))]) for t in strings if t for st in (False, True)]
     vmeta = [(t, st) for t in strings if t for st in (False, True)]
